@@ -1,6 +1,7 @@
 """C16 — client disconnects affect handlers exactly as the task mode promises."""
 import re
 
+from . import lib_c16 as L
 from .lib import callers, closure_of_operand
 from .lib_c16 import (SPAWN, after_await, await_payloads, awaits, give_up_sites, result_switches_of, slice_has_call_at,
                       spawned_coroutine, upvar_index_where, variant_edge, variant_flow)
@@ -322,7 +323,78 @@ def r4_connection_config_shared(ctx):
     ctx.check(R, "one-builder", same, "both serve sites use the builder created once at the top of the task: %s" % same, co)
 
 
-RULES = [("C16.R4", r4_connection_config_shared), ("C16.R1", r1_mode_table), ("C16.R2", r2_exactly_once), ("C16.R3", r3_panic_propagation)]
+def r5_disconnect_record_only_when_dropped(ctx):
+    """Added after adversary change C16-E: an early `return` on the error path skipped the defusing of the scope guard, so every
+    request answered with an error was also recorded (log record, 499 probe) as cancelled by a client disconnect."""
+    R = ctx.rule("C16.R5", "a request is recorded as `cancelled (client disconnected)` only when its future is dropped mid-handler: the scope guard armed before "
+                 "http_request_handle(..).await is defused (ScopeGuard::into_inner of that guard) on every path from the completion of that await to the return of http_request_handle_wrap", floor=4)
+    ds = ctx.ds
+    top = ctx.need_fn(ds, R, r"^server::http_request_handle_wrap$")
+    w = ds.body_of(top)
+    guards = w.live_calls(r"^scopeguard::guard$")
+    aws = [a for a in L.awaits(w) if re.search(r"^server::http_request_handle::\{closure#\d+\}$", a["term"].get("resolved") or "")]
+    ctx.check(R, "one-guard-one-handler-await", len(guards) == 1 and len(aws) == 1, "scopeguard::guard sites: %d; awaits of http_request_handle: %d" % (len(guards), len(aws)), w)
+    if len(guards) != 1 or len(aws) != 1:
+        return
+    gbb, gt = guards[0]
+    aw = aws[0]
+    ctx.check(R, "armed-before-the-handler-runs", w.dominates(gbb, aw["poll_bb"]), "the guard is created on every path to the await of http_request_handle", (w, gbb))
+    defuse = [bb for bb, t in w.live_calls(r"^scopeguard::ScopeGuard::<T, F, S>::into_inner$") if L.slice_has_call_at(w.slice(t["args"][0]), gbb)]
+    ok_after = bool(defuse) and all(L.after_await(w, aw, bb) for bb in defuse)
+    ctx.check(R, "defused-only-after-completion", ok_after, "ScopeGuard::into_inner(<that guard>) sites: %d, all after the Ready edge of the await: %s" % (len(defuse), ok_after), (w, defuse[0]) if defuse else w)
+    ok_all = bool(defuse) and aw["ready"] is not None and w.must_pass(defuse, start=aw["ready"])
+    ctx.check(R, "defused-on-every-path-to-the-response", ok_all,
+              "every path from the completed await to a return of http_request_handle_wrap defuses the guard (otherwise its drop records a disconnect for a request that was answered): %s" % ok_all,
+              (w, aw["poll_bb"]))
+
+
+def r6_configured_mode_reaches_the_dispatch(ctx):
+    """Added after adversary change C16-F: the legacy constructor rebuilt the configuration from "the knobs it always exposed" with
+    `..Default::default()`, silently replacing a configured CancelOnDisconnect by the default Detached."""
+    from .lib_c01 import access_path, VALUE_PRESERVING
+    R = ctx.rule("C16.R6", "the task mode the dispatch reads is the one the caller configured: ServerConfig.default_handler_task_mode is copied from the constructor's `config`, every "
+                 "ServerBuilder::config(..) call in the crate hands over its own `config` parameter unmodified, and ConfigDropshot values are built only by Default / Clone / the "
+                 "deserialisation conversion, which carries the field over", floor=5)
+    ds = ctx.ds
+    ni = ctx.need_fn(ds, R, r"^server::HttpServerStarter::<C>::new_internal$")
+    aggs = [(bb, st) for bb, i, st in ni.aggregates(r"^server::ServerConfig$") if bb in ni.reachable(0)]
+    allsc = [(f.id, bb) for f in ds.F.values() if not f.id.startswith("test_util") for bb, i, st in f.aggregates(r"^server::ServerConfig$")]
+    ctx.check(R, "one-ServerConfig-site", len(aggs) == 1 and len(allsc) == 1, "ServerConfig is built at %s" % allsc, ni)
+    for bb, st in aggs:
+        names = st["rv"].get("fields") or []
+        if "default_handler_task_mode" not in names:
+            ctx.lost(R, "field ServerConfig.default_handler_task_mode")
+            continue
+        p = access_path(ni, st["rv"]["ops"][names.index("default_handler_task_mode")], VALUE_PRESERVING)
+        ok = p.kind() == "param" and p.path == ["default_handler_task_mode"] and "ConfigDropshot" in ni.local_ty(p.root_local())
+        ctx.check(R, "mode-copied-from-config", ok, "ServerConfig.default_handler_task_mode = %r" % p, (ni, bb))
+    n = 0
+    for f in ds.F.values():
+        if f.id.startswith("test_util"):
+            continue
+        for bb, t in f.live_calls(r"^server::ServerBuilder::<C>::config$"):
+            n += 1
+            p = access_path(f, t["args"][1], VALUE_PRESERVING)
+            ok = p.kind() == "param" and not p.path and "ConfigDropshot" in f.local_ty(p.root_local())
+            ctx.check(R, "builder-gets-the-callers-config:%s" % f.id, ok, "ServerBuilder::config(%r) in %s" % (p, f.id), (f, bb))
+    ctx.check(R, "builder-config-callers", n >= 1, "ServerBuilder::config call sites outside test_util: %d" % n, ni, nontrivial=False)
+    allowed = {"<config::ConfigDropshot as std::clone::Clone>::clone": None, "<config::ConfigDropshot as std::default::Default>::default": None,
+               "<config::ConfigDropshot as std::convert::From<config::DeserializedConfigDropshot>>::from": "carry"}
+    for f in ds.F.values():
+        for bb, i, st in f.aggregates(r"^config::ConfigDropshot$"):
+            if bb not in f.reachable(0):
+                continue
+            if f.id not in allowed:
+                ctx.check(R, "ConfigDropshot-built-in:%s" % f.id, False, "a ConfigDropshot value is assembled in %s: fields not listed there silently take their defaults (the configured task mode can be lost)" % f.id, (f, bb))
+                continue
+            if allowed[f.id] == "carry":
+                names = st["rv"].get("fields") or []
+                p = access_path(f, st["rv"]["ops"][names.index("default_handler_task_mode")], VALUE_PRESERVING) if "default_handler_task_mode" in names else None
+                ok = p is not None and p.kind() == "param" and p.path == ["default_handler_task_mode"]
+                ctx.check(R, "ConfigDropshot-conversion-carries-the-mode", ok, "From<DeserializedConfigDropshot>: default_handler_task_mode = %r" % p, (f, bb))
+
+
+RULES = [("C16.R6", r6_configured_mode_reaches_the_dispatch), ("C16.R5", r5_disconnect_record_only_when_dropped), ("C16.R4", r4_connection_config_shared), ("C16.R1", r1_mode_table), ("C16.R2", r2_exactly_once), ("C16.R3", r3_panic_propagation)]
 
 _S = "dropshot/src/server.rs"
 SELFTEST = [
@@ -384,3 +456,5 @@ SELFTEST = [
 ]
 
 LEVEL_TEXT += ' Also (R4): the hyper connection builder is configured once before the transport switch and HTTP/1 half-close is never enabled, so HTTP and HTTPS detect a disconnect identically.'
+LEVEL_TEXT += " Also (R5): the disconnect record (log line, 499 probe) is written only for a future dropped mid-handler: the scope guard is defused on every path from the completed handler await to the response."
+LEVEL_TEXT += " Also (R6): the task mode read by the dispatch is the configured one: it is copied from the constructor's config, which every internal caller passes through unmodified."
